@@ -178,6 +178,9 @@ func (ex *Exec) frameObligations(fr *Frame, fc *FuncContract, final *State, entr
 	env := *entryEnv
 	env.st = ex.entry
 	for _, m := range fc.Modifies {
+		if m.Base != nil && !ex.canEval(&env, m.Base) {
+			continue // mentions the result: objects reachable only from the result are fresh or covered by ensures
+		}
 		switch m.Kind {
 		case ModAll:
 			all = true
@@ -319,4 +322,18 @@ func (ex *Exec) applyGhost(env *Env, fc *FuncContract, st *State) {
 	for _, u := range us {
 		st.store(u.loc, u.v)
 	}
+}
+
+func (ex *Exec) canEval(env *Env, e Expr) (ok bool) {
+	defer func() {
+		if r := recover(); r != nil {
+			if _, is := r.(*specErr); is {
+				ok = false
+				return
+			}
+			panic(r)
+		}
+	}()
+	ex.eval(env, e)
+	return true
 }
